@@ -45,6 +45,9 @@ pub enum LEv {
     Q,
     /// the last node leaves the document (`Doc::leave`)
     Leave,
+    /// the last node (the one with a file-backed docs store) is shut down and started again from
+    /// its directory; it has to open the document and join again
+    Restart,
 }
 
 const KEYS: [&[u8]; 2] = [b"k1x", b"k2"];
@@ -55,9 +58,16 @@ pub struct LiveNode {
     pub docs: iroh_docs::protocol::Docs,
     pub author: AuthorId,
     pub blobs: iroh_blobs::store::mem::MemStore,
+    pub seed: u8,
+    /// directory of the docs store when it is file-backed
+    pub dir: Option<tempfile::TempDir>,
 }
 
 pub async fn live_node(seed: u8) -> anyhow::Result<LiveNode> {
+    live_node_at(seed, None).await
+}
+
+pub async fn live_node_at(seed: u8, dir: Option<&std::path::Path>) -> anyhow::Result<LiveNode> {
     use iroh::endpoint::presets;
     let ep = iroh::Endpoint::builder(presets::Minimal)
         .secret_key(iroh::SecretKey::from_bytes(&[seed; 32]))
@@ -66,7 +76,17 @@ pub async fn live_node(seed: u8) -> anyhow::Result<LiveNode> {
         .map_err(|e| anyhow::anyhow!("bind: {e}"))?;
     let gossip = iroh_gossip::net::Gossip::builder().spawn(ep.clone());
     let blobs = iroh_blobs::store::mem::MemStore::new();
-    let docs = iroh_docs::protocol::Docs::memory().spawn(ep.clone(), (*blobs).clone(), gossip.clone()).await?;
+    let builder = match dir {
+        Some(d) => iroh_docs::protocol::Docs::persistent(d.to_path_buf()),
+        None => iroh_docs::protocol::Docs::memory(),
+    };
+    let docs = match builder.spawn(ep.clone(), (*blobs).clone(), gossip.clone()).await {
+        Ok(d) => d,
+        Err(e) => {
+            ep.close().await;
+            return Err(e);
+        }
+    };
     let router = iroh::protocol::Router::builder(ep.clone())
         .accept(iroh_blobs::ALPN, iroh_blobs::BlobsProtocol::new(&blobs, None))
         .accept(iroh_docs::ALPN, docs.clone())
@@ -74,7 +94,7 @@ pub async fn live_node(seed: u8) -> anyhow::Result<LiveNode> {
         .spawn();
     let author = Author::from_bytes(&[seed ^ 0x0f; 32]);
     docs.api().author_import(author.clone()).await?;
-    Ok(LiveNode { router, docs, author: author.id(), blobs })
+    Ok(LiveNode { router, docs, author: author.id(), blobs, seed, dir: None })
 }
 
 async fn dump(doc: &Doc) -> Result<BTreeSet<Row>, String> {
@@ -268,7 +288,7 @@ async fn has_blob(node: &LiveNode, hash: &[u8; 32]) -> bool {
 
 /// `which`: "C04" reports the swarm clauses, "C12" the subscriber clauses, "C15:<i>" gives the
 /// last node download policy number i and reports which contents it fetched.
-pub async fn exec(nodes: &[LiveNode], hist: &[LEv], dec: bool, salt: u64, deadline: Duration, stats: &mut Stats, which: &str) -> Bad {
+pub async fn exec(nodes: &mut Vec<LiveNode>, hist: &[LEv], dec: bool, salt: u64, deadline: Duration, stats: &mut Stats, which: &str) -> Bad {
     let policy_no: Option<usize> = which.strip_prefix("C15:").and_then(|i| i.parse().ok());
     let which = if policy_no.is_some() { "C15" } else { which };
     let mut bad: Bad = vec![];
@@ -276,7 +296,7 @@ pub async fn exec(nodes: &[LiveNode], hist: &[LEv], dec: bool, salt: u64, deadli
     let sec = secret(salt, 7);
     set_clock(NOW);
     let mut docs: Vec<Doc> = vec![];
-    for node in nodes {
+    for node in nodes.iter() {
         match node.docs.api().import_namespace(Capability::Write(sec.clone())).await {
             Ok(d) => docs.push(d),
             Err(e) => return vec![("machinery", json!({}), format!("import: {e:#}"))],
@@ -363,6 +383,38 @@ pub async fn exec(nodes: &[LiveNode], hist: &[LEv], dec: bool, salt: u64, deadli
                     } else {
                         stats.not_settled_by_itself += 1;
                         stats.not_settled_examples.push(format!("{:?} (waiting point at step {step}), clocks {}", hist, if dec { "stepping back" } else { "increasing" }));
+                    }
+                }
+            }
+            LEv::Restart => {
+                let i = n - 1;
+                if nodes[i].dir.is_none() {
+                    continue;
+                }
+                let _ = docs[i].close().await;
+                let mut old = nodes.remove(i);
+                let dir = old.dir.take().expect("dir");
+                let seed = old.seed;
+                let _ = tokio::time::timeout(Duration::from_secs(10), old.router.shutdown()).await;
+                drop(old);
+                // start again from the directory (the database file is released when the old
+                // store actor has gone)
+                let started = std::time::Instant::now();
+                let mut fresh = loop {
+                    match live_node_at(seed, Some(dir.path())).await {
+                        Ok(nn) => break nn,
+                        Err(e) if started.elapsed() > Duration::from_secs(15) => return vec![("machinery", json!({}), format!("restart of node {i}: {e:#}"))],
+                        Err(_) => tokio::time::sleep(Duration::from_millis(50)).await,
+                    }
+                };
+                fresh.dir = Some(dir);
+                nodes.push(fresh);
+                syncing[i] = false;
+                match nodes[i].docs.api().open(sec.id()).await {
+                    Ok(Some(d)) => docs[i] = d,
+                    other => {
+                        bad.push(("document_survives_restart", witness("restart"), format!("node {i} was shut down and started again from its directory; opening the document gives {:?}", other.map(|o| o.is_some()).map_err(|e| e.to_string()))));
+                        break;
                     }
                 }
             }
@@ -570,10 +622,18 @@ pub fn runtime() -> tokio::runtime::Runtime {
     tokio::runtime::Builder::new_multi_thread().worker_threads(2).enable_all().build().expect("runtime")
 }
 
-async fn nodes(n: usize) -> anyhow::Result<Vec<LiveNode>> {
+/// `persistent_last`: the docs store of the last node lives in a directory (it can be restarted).
+async fn nodes(n: usize, persistent_last: bool) -> anyhow::Result<Vec<LiveNode>> {
     let mut v = vec![];
     for i in 0..n {
-        v.push(live_node(0x71 + i as u8).await?);
+        if persistent_last && i + 1 == n {
+            let dir = tempfile::tempdir()?;
+            let mut node = live_node_at(0x71 + i as u8, Some(dir.path())).await?;
+            node.dir = Some(dir);
+            v.push(node);
+        } else {
+            v.push(live_node(0x71 + i as u8).await?);
+        }
     }
     Ok(v)
 }
@@ -584,7 +644,7 @@ async fn shutdown(nodes: Vec<LiveNode>) {
     }
 }
 
-fn alphabet(n: u8) -> Vec<LEv> {
+fn alphabet(n: u8, which: &str) -> Vec<LEv> {
     let mut evs = vec![];
     for node in 0..n {
         evs.push(LEv::W(node, 0));
@@ -592,6 +652,9 @@ fn alphabet(n: u8) -> Vec<LEv> {
         evs.push(LEv::D(node));
     }
     evs.extend([LEv::J, LEv::Q, LEv::Leave]);
+    if which == "C04" {
+        evs.push(LEv::Restart);
+    }
     evs
 }
 
@@ -613,7 +676,7 @@ pub fn run_live_family(ctx: &Ctx, report: &mut Report, which: &'static str) {
     };
     let variants: Vec<String> = if which == "C15" { (0..policies().len()).map(|i| format!("C15:{i}")).collect() } else { vec![which.to_string()] };
     for (n, depth) in plan {
-        let evs = alphabet(n);
+        let evs = alphabet(n, which);
         let mut cases: Vec<(u64, Vec<LEv>, bool, String)> = vec![];
         let mut ordinal = (1u64 << 46) + ((n as u64) << 40);
         for d in 1..=depth {
@@ -642,19 +705,19 @@ pub fn run_live_family(ctx: &Ctx, report: &mut Report, which: &'static str) {
         let rt = runtime();
         let mut stats = Stats::default();
         let results: anyhow::Result<Vec<(u64, Vec<LEv>, bool, Bad, bool, String)>> = rt.block_on(async {
-            let ns = nodes(n as usize).await?;
+            let mut ns = nodes(n as usize, which == "C04").await?;
             let mut out = vec![];
             for (ord, hist, dec, which) in cases {
                 let which = which.as_str();
                 if crate::util::watch::stopped() {
                     break;
                 }
-                let mut bad = exec(&ns, &hist, dec, ord, SHORT, &mut stats, which).await;
+                let mut bad = exec(&mut ns, &hist, dec, ord, SHORT, &mut stats, which).await;
                 let mut rerun = false;
                 if bad.iter().any(|(o, _, _)| *o == "premise_not_met" || *o == "live_selected_content_is_fetched" || *o == "live_pair_is_ready_for_a_new_session") {
                     // a loaded machine: once more, with a long deadline
                     rerun = true;
-                    bad = exec(&ns, &hist, dec, ord ^ (1 << 39), LONG, &mut stats, which).await;
+                    bad = exec(&mut ns, &hist, dec, ord ^ (1 << 39), LONG, &mut stats, which).await;
                 }
                 out.push((ord, hist, dec, bad, rerun, which.to_string()));
             }
@@ -708,11 +771,11 @@ pub fn replay_live(case: &Value, which: &'static str) -> anyhow::Result<Option<(
     let which = which.as_str();
     let rt = runtime();
     let bad: anyhow::Result<Bad> = rt.block_on(async {
-        let ns = nodes(n).await?;
+        let mut ns = nodes(n, which == "C04").await?;
         let mut stats = Stats::default();
-        let mut b = exec(&ns, &hist, dec, salt, SHORT, &mut stats, which).await;
+        let mut b = exec(&mut ns, &hist, dec, salt, SHORT, &mut stats, which).await;
         if b.iter().any(|(o, _, _)| *o == "premise_not_met" || *o == "live_selected_content_is_fetched" || *o == "live_pair_is_ready_for_a_new_session") {
-            b = exec(&ns, &hist, dec, salt ^ (1 << 39), LONG, &mut stats, which).await;
+            b = exec(&mut ns, &hist, dec, salt ^ (1 << 39), LONG, &mut stats, which).await;
         }
         b.retain(|(o, _, _)| *o != "premise_not_met");
         shutdown(ns).await;
